@@ -17,6 +17,7 @@ Proof.
   - destruct (Z.leb_spec a b); [left; reflexivity | right; apply Z.leb_le; lia].
   - apply Z.leb_le in H2, H3. apply Z.leb_le. lia.
   - apply Z.leb_le in H1, H2. apply Z.eqb_eq. lia.
+  - reflexivity.
 Qed.
 
 (* a three-point series over Z, supplied out of order; the "routine" is piecewise-constant
@@ -281,3 +282,12 @@ Example hyps_F_examples :
   hyps_F [gf neg_zero 1; gf 0 2]%float ["t"] (TF 1%float) = false /\
   laws_F series_nan ["t"] (TF nan) = true /\ laws_F series_inf ["t"] (TF 0.5%float) = true.
 Proof. repeat split; vm_compute; reflexivity. Qed.
+
+(* a NaN QUERY value needs no hypothesis: it equals no abscissa, so the query is off-node in every order and the
+   same leaves are computed (C20_order_free_f64 has no hypothesis on the value) *)
+Example f64_nan_query_is_off_node :
+  match runF series_zero (TF nan), runF (rev series_zero) (TF nan) with
+  | ONew r, ONew r' => get [KS "centre"] r = get [KS "centre"] r' /\ get [KS "centre"] r = Some (TF 30%float)
+  | _, _ => False
+  end.
+Proof. vm_compute. split; reflexivity. Qed.
